@@ -18,7 +18,7 @@ void* verif_memset_b(void*,int,size_t); void* verif_memcpy_b(void*,const void*,s
 #define VERIF_IS_BYTEPTR(p) (sizeof(*(p)) == 1)
 #define memset(p, c, n)                                                                           \
     __builtin_choose_expr(VERIF_IS_BYTEPTR(p), verif_memset_b((void*)(p), (c), (n)), ({                  \
-                              __typeof__(p) vtm_p_ = (p);                                         \
+                              __typeof__(&(p)[0]) vtm_p_ = (p);                                         \
                               size_t vtm_k_ = (n) / sizeof(*vtm_p_);                              \
                               if ((c) == 0 && vtm_k_ * sizeof(*vtm_p_) == (n)) {                   \
                                   for (size_t vtm_i_ = 0; vtm_i_ < vtm_k_; ++vtm_i_)              \
@@ -30,7 +30,7 @@ void* verif_memset_b(void*,int,size_t); void* verif_memcpy_b(void*,const void*,s
 #define memcpy(d, s, n)                                                                           \
     __builtin_choose_expr(VERIF_IS_BYTEPTR(d) || !__builtin_types_compatible_p(__typeof__(*(d)), __typeof__(*(s))), \
                           verif_memcpy_b((void*)(d), (const void*)(s), (n)), ({                         \
-                              __typeof__(d) vtm_d_ = (d);                                         \
+                              __typeof__(&(d)[0]) vtm_d_ = (d);                                         \
                               const void* vtm_s_ = (s);                                           \
                               if ((n) == sizeof(*vtm_d_))                                         \
                                   *vtm_d_ = *(const __typeof__(*vtm_d_)*)vtm_s_;                  \
